@@ -93,7 +93,8 @@ B_DATE = {0: (-9999, 9999), 1: (1, 12), 2: (1, 31)}
 B_CAL = {**B_DATE, 4: (0, LIM["years"]), 5: (0, LIM["months"]), 6: (0, LIM["weeks"]), 7: (0, LIM["days"])}
 
 # magnitudes below which no 64-bit product or partial sum can overflow (so the F2 role is empty there)
-B_SPAN_T_SMALL = {5: (0, 2000000), 6: (0, 100000000), 7: (0, 9000000000), 8: (0, 9000000000000), 9: (0, 1000000000000000), 10: (0, 1000000000000000000)}
+# (each product <= 1.44e18, six of them plus the time of day stay below 2^63 ~ 9.22e18)
+B_SPAN_T_SMALL = {5: (0, 400000), 6: (0, 24000000), 7: (0, 1400000000), 8: (0, 1400000000000), 9: (0, 1400000000000000), 10: (0, 1400000000000000000)}
 B_TS_SMALL = {**B_TIME, **B_SPAN_T_SMALL}
 
 
@@ -150,12 +151,12 @@ KERNELS = [
       claims=[("Date::checked_add(years, months): month arithmetic with the day clamped to the target month; Err iff year out of range",
                lambda a, o: And(o.is_some, opt_is(o.some, in_range(ref_add_months(a[0], a[1], a[2], sgn(a[3]) * a[4], sgn(a[3]) * a[5])[0], -9999, 9999),
                                                   lambda r: eq3(r.ints(), ref_add_months(a[0], a[1], a[2], sgn(a[3]) * a[4], sgn(a[3]) * a[5])))))],
-      bounds={**B_DATE, 4: (0, LIM["years"]), 5: (0, LIM["months"])}, split=(0, {"quick": 8, "thorough": 32}), timeout=240),
+      bounds={**B_DATE, 4: (0, LIM["years"]), 5: (0, LIM["months"])}, split=(0, 64), timeout=900, tier="thorough"),
     K("c08::k_date_add_wd", pre=lambda a: And(date_ok(a), in_range(a[4], 0, LIM["weeks"]), in_range(a[5], 0, LIM["days"])),
       claims=[("Date::checked_add(weeks, days) == epoch day + 7w + d; Err iff outside -9999-01-01..=9999-12-31",
                lambda a, o: And(o.is_some, opt_is(o.some[0], in_range(o.some[1].i + sgn(a[3]) * (7 * a[4] + a[5]), MIN_DAY, MAX_DAY),
                                                   lambda r: And(ref_valid_date(*r[0].ints()), r[1].i == o.some[1].i + sgn(a[3]) * (7 * a[4] + a[5])))))],
-      bounds={**B_DATE, 4: (0, LIM["weeks"]), 5: (0, LIM["days"])}, split=(0, {"quick": 8, "thorough": 32}), timeout=240),
+      bounds={**B_DATE, 4: (0, LIM["weeks"]), 5: (0, LIM["days"])}, split=(0, 64), timeout=900, tier="thorough"),
     K("c08::k_date_add_cal", pre=lambda a: And(date_ok(a), cal_ok(a, 3)),
       claims=[("Date::checked_add(years, months, weeks, days): months first with day clamp, then days on epoch days; Err iff out of range",
                date_add_cal_claim(1))],
